@@ -34,7 +34,7 @@ struct target
     virtual bool  tda(void* p, std::size_t c, std::size_t size, std::size_t al) = 0;
     virtual std::string caps(std::size_t size) = 0;
     virtual void move_construct() = 0;
-    virtual void move_assign(bool used) = 0;
+    virtual bool move_assign(bool used) = 0;      // returns whether the assigned-to object held an allocation
     virtual bool assign_into_moved_from() = 0;
     virtual void destroy() = 0;
     virtual void report_reserved() = 0;
@@ -79,11 +79,11 @@ struct target_impl : target
     }
     std::string caps(std::size_t size) override { return caps_impl(*a, size, 0); }
     void move_construct() override { A* n = new (slot()) A(std::move(*a)); graveyard.push_back(a); a = n; }
-    void move_assign(bool used) override
+    bool move_assign(bool used) override
     {
-        A* n = make(slot());
-        if (used) { try { void* p = traits::allocate_node(*n, 1, 1); (void)p; } catch (...) {} }
-        *n = std::move(*a); graveyard.push_back(a); a = n;
+        A* n = make(slot()); bool held = false;
+        if (used) { try { void* p = traits::allocate_node(*n, 1, 1); held = p != nullptr; } catch (...) {} }
+        *n = std::move(*a); graveyard.push_back(a); a = n; return held;
     }
     bool assign_into_moved_from() override
     {
@@ -259,7 +259,7 @@ int main()
         else if (op == "fail") { long k; is >> k; U.fail_at = U.calls + k; res = "set"; }
         else if (op == "failfrom") { long k; is >> k; U.fail_from = k < 0 ? -1 : U.calls + k; res = "set"; }
         else if (op == "mv") { t->move_construct(); res = "moved reports=" + leak_list(); }
-        else if (op == "ma") { std::string w; is >> w; U.fail_at = -1; t->move_assign(w == "used"); res = "assigned reports=" + leak_list(); }
+        else if (op == "ma") { std::string w; is >> w; U.fail_at = -1; bool held = t->move_assign(w == "used"); res = "assigned reports=" + leak_list() + (held ? " held=1" : " held=0"); }
         else if (op == "mfa") { U.fail_at = -1; res = t->assign_into_moved_from() ? "done reports=" + leak_list() : "skipped"; }
         else if (op == "sweep") { sweep("sweep"); res = "swept"; }
         else if (op == "destroy") { sweep("before-destroy"); t->destroy(); std::printf("destroy = ok |%s | leaks=%ld amounts=%s\n", U.take().c_str(), hc().leak, leak_list().c_str()); break; }
